@@ -9,7 +9,7 @@ from ..cfg import cfg_of, switch_arms, const_eval, unwrap_cases
 from ..cxx_ir import CALL_KINDS
 from .common import (ALL_KINDS, KIND_ENUM, short, inst, live_funcs, kind_switches, calls_in,
                      callee_func, enclosing_map, ancestors, thrown_type, member_path,
-                     local_inits, assignments_to, strip_casts)
+                     local_inits, assignments_to, strip_casts, unnegate)
 
 
 # --------------------------------------------------------------------------------------------
@@ -769,3 +769,70 @@ def k9(ctx):
                   'to its recursive call: native recursion depth is bounded only by the size of '
                   'the treespec' % ', '.join(sorted(inst(f) for f in fs)),
                   fs[0].loc)
+
+
+@rule('AL1', floor=4, title='all_leaves answers yes only after the last element and no at the first element that is not a leaf')
+def al1(ctx):
+    """`all_leaves(xs)` is the conjunction over the elements: inside the loop over the iterable
+    the only answer is `false`, given exactly on the outcome "GetKind says this is not a leaf"; an
+    element the predicate accepts goes on to the next element (it is not an answer for the whole
+    iterable); `true` is returned after the loop.  `is_leaf(x)` is the same decision for one object:
+    predicate accepted -> true, otherwise GetKind == Leaf."""
+    prog = ctx.cxx()
+    from ..cfg import const_eval as ce
+    from ..cxx_ir import LOOP_KINDS as _LK
+    fs = [f for f in prog.by_suffix('AllLeavesImpl') if not f.dependent and f.body is not None]
+    ctx.require(len(fs) == 2, 'AllLeavesImpl: %d instantiations' % len(fs))
+    for f in fs:
+        cfg = cfg_of(f)
+        parent = enclosing_map(f.body)
+        loops = [n for n in f.body.walk() if n.kind in _LK]
+        ctx.require(len(loops) == 1, '%s: %d loops' % (inst(f), len(loops)))
+        rets = [r for r in f.body.walk() if r.kind == 'ReturnStmt' and r.kids]
+        inside = [r for r in rets if any(a is loops[0] for a in ancestors(r, parent))]
+        outside = [r for r in rets if r not in inside]
+        bad_in = [r for r in inside if ce(r.kids[0]) is not False]
+        ctx.check('%s/no-early-yes' % short(f), inside and not bad_in,
+                  '%s: inside the loop the only answer is `false`' % inst(f),
+                  '%s returns `%s` from inside the loop over the elements: one element answers for all of '
+                  'them (an element the predicate accepts, followed by a non-leaf, gives True)'
+                  % (inst(f), bad_in[0].kids[0].text(3) if bad_in else 'nothing'),
+                  bad_in[0].loc if bad_in else f.loc)
+        ctx.check('%s/yes-after-the-loop' % short(f), len(outside) == 1 and ce(outside[0].kids[0]) is True,
+                  '%s: `true` is returned after the last element' % inst(f),
+                  '%s does not end with `return true` after the loop' % inst(f), f.loc)
+        # the negative answer is given on the "not a leaf" outcome of the GetKind comparison
+        gk = [c for c in calls_in(f.body, {'GetKind'})]
+        ok = False
+        for cn in cfg.nodes:
+            if not gk or cn.kind != 'cond' or cn.ast is None or not any(x is gk[0] for x in cn.ast.walk()):
+                continue
+            a, pos = unnegate(cn.ast)
+            if a is None or a.kind != 'BinaryOperator' or a.op not in ('==', '!=') or 'Leaf' not in a.text(4):
+                continue
+            not_leaf = (a.op == '!=') == pos
+            yes = cfg.forward_reachable([w for (w, lab) in cfg.succ[cn.idx]
+                                         if lab is not_leaf and (cn.idx, w) not in cfg.back_edges])
+            no = cfg.forward_reachable([w for (w, lab) in cfg.succ[cn.idx]
+                                        if lab is (not not_leaf) and (cn.idx, w) not in cfg.back_edges])
+            rn = {cfg.cnode_of(r) for r in inside}
+            ok = bool(rn & yes) and not (rn & no)
+        ctx.check('%s/no-on-a-non-leaf' % short(f), ok,
+                  '%s: `false` is returned exactly when GetKind says the element is not a leaf' % inst(f),
+                  '%s: the negative answer is not tied to the outcome "kind != Leaf" of the classification'
+                  % inst(f), f.loc)
+    gs = [f for f in prog.by_suffix('IsLeafImpl') if not f.dependent and f.body is not None]
+    ctx.require(len(gs) == 2, 'IsLeafImpl: %d instantiations' % len(gs))
+    for f in gs:
+        rets = [r for r in f.body.walk() if r.kind == 'ReturnStmt' and r.kids]
+        consts = [ce(r.kids[0]) for r in rets]
+        cmp_ = [r for r in rets if ce(r.kids[0]) is None]
+        ok = consts.count(True) == 1 and consts.count(False) == 0 and len(cmp_) == 1
+        if ok:
+            a, pos = unnegate(cmp_[0].kids[0])
+            ok = a is not None and a.kind == 'BinaryOperator' and a.op in ('==', '!=') and \
+                ((a.op == '==') == pos) and 'GetKind' in a.text(6) and 'Leaf' in a.text(6)
+        ctx.check('%s/decision' % short(f), ok,
+                  '%s: predicate accepted -> true, otherwise GetKind(...) == Leaf' % inst(f),
+                  '%s does not answer `true` for an accepted object and `GetKind(...) == Leaf` otherwise' % inst(f),
+                  f.loc)
